@@ -375,6 +375,95 @@ theorem decDir_alloc_le (bs : Bytes) : ∀ a ∈ decDirAllocs bs, a ≤ 64 * bs.
           omega
   · simp
 
+/-! ## lookups through the tile-index cache: a failed load is not cached -/
+
+/-- every cached index has exactly as many entries as its block covers tiles -/
+def CacheOk (count : Nat → Nat) (c : IdxCache) : Prop := ∀ k idx, IdxCache.find c k = some idx → idx.length = count k
+
+theorem cacheOk_nil (count : Nat → Nat) : CacheOk count [] := by
+  intro k idx h; simp [IdxCache.find] at h
+
+theorem cacheOk_cons {count : Nat → Nat} {c : IdxCache} (h : CacheOk count c) (k : Nat) (idx : List Fmt.Range)
+    (hl : idx.length = count k) : CacheOk count ((k, idx) :: c) := by
+  intro k' idx' hf
+  simp only [IdxCache.find] at hf
+  split at hf
+  · rename_i hk
+    have : k = k' := by simpa using hk
+    subst this
+    cases hf; exact hl
+  · exact h k' idx' hf
+
+/-- `get_block_tile_index` keeps the invariant, returns only validated indexes, and
+    **a failing load / failing validation leaves the cache unchanged** (cf. `VtProps.C20.getOrSet_miss_fail`) -/
+theorem getIndex_spec (load : Nat → Outcome (List Fmt.Range)) (count : Nat → Nat) (c : IdxCache) (k : Nat)
+    (hc : CacheOk count c) :
+    CacheOk count (getIndex true load count c k).2 ∧
+    (∀ idx, (getIndex true load count c k).1 = .ok idx → idx.length = count k) ∧
+    ((getIndex true load count c k).1 = .err → (getIndex true load count c k).2 = c) ∧
+    ((getIndex true load count c k).1 = .panic → load k = .panic) := by
+  unfold getIndex
+  split
+  · rename_i idx hf
+    refine ⟨hc, ?_, by simp, by simp⟩
+    intro idx' h; simp at h; subst h; exact hc k idx hf
+  · split
+    · rename_i idx hl
+      simp only [if_true]
+      split
+      · rename_i hlen
+        have hlen' : idx.length = count k := by simpa using hlen
+        refine ⟨cacheOk_cons hc k idx hlen', ?_, by simp, by simp⟩
+        intro idx' h; simp at h; subst h; exact hlen'
+      · exact ⟨hc, by simp, by simp, by simp⟩
+    · exact ⟨hc, by simp, by simp, by simp⟩
+    · rename_i hp; exact ⟨hc, by simp, by simp, fun _ => hp⟩
+
+/-- one lookup never panics when the loader does not and the position lies inside the block -/
+theorem lookupTile_spec (load : Nat → Outcome (List Fmt.Range)) (count : Nat → Nat) (c : IdxCache) (k pos : Nat)
+    (hc : CacheOk count c) (hload : ∀ k, load k ≠ .panic) (hpos : pos < count k) :
+    CacheOk count (lookupTile true load count c k pos).2 ∧ (lookupTile true load count c k pos).1 ≠ .panic := by
+  obtain ⟨h1, h2, _, h4⟩ := getIndex_spec load count c k hc
+  unfold lookupTile
+  split
+  · rename_i idx c' hg
+    rw [hg] at h1 h2
+    refine ⟨h1, ?_⟩
+    have hl := h2 idx rfl
+    have : pos < idx.length := by omega
+    simp [List.getElem?_eq_getElem this]
+  · rename_i c' hg; rw [hg] at h1; exact ⟨h1, by simp⟩
+  · rename_i c' hg
+    rw [hg] at h4
+    exact absurd (h4 rfl) (hload k)
+
+/-- **sequences of lookups on one reader** (repeated coordinates, after errors and after successes):
+    no call of the sequence panics — a failed index load is never cached, so a repeated lookup
+    re-validates instead of indexing an unvalidated vector -/
+theorem lookupSeq_no_panic (load : Nat → Outcome (List Fmt.Range)) (count : Nat → Nat)
+    (hload : ∀ k, load k ≠ .panic) :
+    ∀ (qs : List (Nat × Nat)) (c : IdxCache), CacheOk count c → (∀ q ∈ qs, q.2 < count q.1) →
+    ∀ r ∈ lookupSeq true load count c qs, r ≠ .panic := by
+  intro qs
+  induction qs with
+  | nil => intro c _ _ r hr; simp [lookupSeq] at hr
+  | cons q rest ih =>
+    intro c hc hq r hr
+    obtain ⟨k, pos⟩ := q
+    simp only [lookupSeq, List.mem_cons] at hr
+    obtain ⟨h1, h2⟩ := lookupTile_spec load count c k pos hc hload (hq (k, pos) (by simp))
+    cases hr with
+    | inl h => subst h; exact h2
+    | inr h => exact ih _ h1 (fun q' hq' => hq q' (by simp [hq'])) r h
+
+/-- the order "cache first, validate afterwards" breaks it: an index with 0 entries for a block of
+    1 tile — the first lookup is an error, the second one panics (index out of bounds) -/
+theorem cache_before_validate_panics :
+    lookupSeq false (fun _ => .ok []) (fun _ => 1) [] [(0, 0), (0, 0)] = [.err, .panic] := by decide
+
+/-- … while the real order answers `err` twice -/
+example : lookupSeq true (fun _ => .ok []) (fun _ => 1) [] [(0, 0), (0, 0)] = [.err, .err] := by decide
+
 /-! ## length-prefixed reads: no panic, allocation ≤ input -/
 
 theorem readBytes_no_panic (r : Prim.Reader) (n : Nat) : (Decoders.readBytes r n).out ≠ .panic := by
